@@ -109,7 +109,7 @@ Lemma allow_spec b now a b' :
 Proof.
   unfold allow. set (t := Qred (refilled b now)).
   assert (Hq : t == refilled b now) by apply Qred_correct. clearbody t.
-  pose proof (Qred_correct (t - 1)) as Hq2.
+  set (u := Qred (t - 1)). assert (Hq2 : u == t - 1) by apply Qred_correct. clearbody u.
   destruct (Qle_bool 1 t) eqn:E; intros H; injection H as <- <-; cbn [tokens maxT rate last].
   - repeat split. left. apply Qle_bool_true in E. repeat split; lra.
   - repeat split. right. apply Qle_bool_false in E. repeat split; lra.
